@@ -795,3 +795,132 @@ Proof. exists G_k4. eexists. repeat split; vm_compute; reflexivity. Qed.
 (* the repaired one leaves the graph as it is for max_dim <= 1 *)
 Lemma blockers_low_dim P st d : d <= 1 -> exp_blockers P true st d = (st, []).
 Proof. intro H. unfold exp_blockers. destruct (Z.leb_spec d 1); [reflexivity | lia]. Qed.
+
+(* ------------------------------------------------------------------------------------------------ Rips *)
+Lemma in_zrange x : forall n a, In x (zrange a n) <-> a <= x < a + Z.of_nat n.
+Proof.
+  induction n as [|n IH]; intro a; cbn [zrange In]; [lia|]. rewrite IH. lia.
+Qed.
+Lemma vlookup_const x c : forall L, vlookup x (map (fun i => (i, c)) L) = if existsb (Z.eqb x) L then Some c else None.
+Proof.
+  induction L as [|y L IH]; [reflexivity|]. cbn [map vlookup existsb]. destruct (x =? y); [reflexivity | exact IH].
+Qed.
+Definition inr (n : nat) (x : Z) : bool := (0 <=? x) && (x <? Z.of_nat n).
+Lemma existsb_zrange x n : existsb (Z.eqb x) (zrange 0 n) = inr n x.
+Proof.
+  unfold inr. destruct (existsb (Z.eqb x) (zrange 0 n)) eqn:E.
+  - apply existsb_exists in E as (y & Hy & Hxy). apply in_zrange in Hy. lia.
+  - destruct ((0 <=? x) && (x <? Z.of_nat n)) eqn:E2; [|reflexivity].
+    assert (existsb (Z.eqb x) (zrange 0 n) = true); [|congruence].
+    apply existsb_exists. exists x. split; [apply in_zrange; lia | lia].
+Qed.
+Lemma vval_prox n dist thr x : vval (prox_graph n dist thr) x = if inr n x then Some 0 else None.
+Proof. unfold vval, prox_graph. cbn [gverts]. rewrite vlookup_const, existsb_zrange. reflexivity. Qed.
+Lemma in_prox_edges n dist thr a b o :
+  In (a, b, o) (gedges (prox_graph n dist thr)) <->
+  inr n a = true /\ inr n b = true /\ a < b /\ dist a b <= thr /\ o = dist a b.
+Proof.
+  unfold prox_graph. cbn [gedges]. rewrite in_flat_map. split.
+  - intros (i & Hi & H). apply in_flat_map in H as (j & Hj & H).
+    destruct ((i <? j) && (dist i j <=? thr)) eqn:E; [|destruct H]. destruct H as [H|[]]. inversion H; subst.
+    apply in_zrange in Hi, Hj. unfold inr. repeat split; lia.
+  - intros (Ha & Hb & Hab & Hd & ->). unfold inr in *. exists a. split; [apply in_zrange; lia|].
+    apply in_flat_map. exists b. split; [apply in_zrange; lia|].
+    assert ((a <? b) && (dist a b <=? thr) = true) as -> by lia. left; reflexivity.
+Qed.
+Lemma elookup_none x y : forall es,
+  (forall a b o, In (a, b, o) es -> ~ ((a = x /\ b = y) \/ (a = y /\ b = x))) -> elookup x y es = None.
+Proof.
+  induction es as [|[[a b] o] es IH]; intro H; [reflexivity|]. cbn [elookup].
+  destruct (((a =? x) && (b =? y)) || ((a =? y) && (b =? x))) eqn:E.
+  - exfalso. apply (H a b o (or_introl eq_refl)). lia.
+  - apply IH. intros a' b' o' Hin. apply (H a' b' o'). right; exact Hin.
+Qed.
+Lemma elookup_some x y w : forall es,
+  (exists a b, In (a, b, w) es /\ ((a = x /\ b = y) \/ (a = y /\ b = x))) ->
+  (forall a b o, In (a, b, o) es -> ((a = x /\ b = y) \/ (a = y /\ b = x)) -> o = w) -> elookup x y es = Some w.
+Proof.
+  induction es as [|[[a b] o] es IH]; intros (a' & b' & Hin & Hm) Hu; [destruct Hin|]. cbn [elookup].
+  destruct (((a =? x) && (b =? y)) || ((a =? y) && (b =? x))) eqn:E.
+  - f_equal. apply (Hu a b o (or_introl eq_refl)). lia.
+  - apply IH.
+    + destruct Hin as [Hh|Hin]; [inversion Hh; subst; lia | exists a', b'; auto].
+    + intros a2 b2 o2 Hin2. apply (Hu a2 b2 o2). right; exact Hin2.
+Qed.
+Lemma eval_prox n dist thr x y : x < y ->
+  eval (prox_graph n dist thr) x y = if inr n x && inr n y && (dist x y <=? thr) then Some (dist x y) else None.
+Proof.
+  intro Hxy. unfold eval. destruct (inr n x && inr n y && (dist x y <=? thr)) eqn:E.
+  - apply andb_prop in E as [E E3]. apply andb_prop in E as [E1 E2]. apply elookup_some.
+    + exists x, y. split; [apply (proj2 (in_prox_edges n dist thr x y (dist x y))); repeat split; auto; lia | left; auto].
+    + intros a b o Hin Hm. apply in_prox_edges in Hin as (_ & _ & Hab & _ & ->). destruct Hm as [[-> ->]|[-> ->]]; [reflexivity | lia].
+  - apply elookup_none. intros a b o Hin Hm. apply in_prox_edges in Hin as (Ha & Hb & Hab & Hd & _).
+    destruct Hm as [[-> ->]|[-> ->]]; [|lia]. rewrite Ha, Hb in E. cbn [andb] in E. lia.
+Qed.
+Lemma prox_edges_okb n dist thr : edges_okb (prox_graph n dist thr) = true.
+Proof.
+  unfold edges_okb. apply forallb_forall. intros [[a b] o] Hin. apply in_prox_edges in Hin as (Ha & Hb & Hab & _).
+  rewrite !vval_prox, Ha, Hb. cbn. lia.
+Qed.
+
+Lemma pairs_le_in dist thr : forall r a b, ssortedb r = true -> pairs_le dist thr r = true ->
+  In a r -> In b r -> a < b -> dist a b <= thr.
+Proof.
+  induction r as [|x r IH]; intros a b Hs Hp Ha Hb Hab; [destruct Ha|].
+  cbn [ssortedb pairs_le] in *. apply andb_prop in Hs as [Hs1 Hs2]. apply andb_prop in Hp as [Hp1 Hp2].
+  destruct Ha as [->|Ha].
+  - destruct Hb as [->|Hb]; [lia|]. rewrite forallb_forall in Hp1. specialize (Hp1 b Hb). lia.
+  - destruct Hb as [->|Hb]; [pose proof (lbound_in b r a Hs1 Ha); lia | eapply IH; eauto].
+Qed.
+Lemma inrange_in n r y : inrange n r = true -> In y r -> inr n y = true.
+Proof. unfold inrange. rewrite forallb_forall. intros H Hy. apply (H y Hy). Qed.
+Lemma adj_prox_row n dist thr x : forall r, inr n x = true -> lbound x r = true ->
+  forallb (adj (prox_graph n dist thr) x) r = inrange n r && forallb (fun y => dist x y <=? thr) r.
+Proof.
+  induction r as [|y r IH]; intros Hx Hb; [reflexivity|]. cbn [lbound] in Hb. apply andb_prop in Hb as [H1 H2].
+  cbn [forallb inrange]. fold (inrange n r). rewrite IH by auto. unfold adj at 1. rewrite eval_prox by lia. rewrite Hx. cbn [andb].
+  fold (inr n y). destruct (inr n y), (dist x y <=? thr), (inrange n r), (forallb _ r); reflexivity.
+Qed.
+Lemma cliqueb_prox n dist thr : forall s, ssortedb s = true ->
+  cliqueb (prox_graph n dist thr) s = inrange n s && pairs_le dist thr s.
+Proof.
+  induction s as [|x r IH]; intro Hs; [reflexivity|]. cbn [ssortedb] in Hs. apply andb_prop in Hs as [H1 H2].
+  cbn [cliqueb inrange pairs_le forallb]. fold (inrange n r) (inr n x). rewrite IH by exact H2. rewrite vval_prox.
+  destruct (inr n x) eqn:Hx; [|reflexivity]. cbn [is_some andb]. rewrite adj_prox_row by auto.
+  destruct (inrange n r), (forallb _ r), (pairs_le dist thr r); reflexivity.
+Qed.
+Theorem rips_spec_flag n dist thr d s : flag (prox_graph n dist thr) d s = rips_spec n dist thr d s.
+Proof.
+  unfold flag, rips_spec. destruct (ssortedb s) eqn:Hs; [|reflexivity]. cbn [andb].
+  rewrite cliqueb_prox by exact Hs. destruct (is_nil s) eqn:Hn; [reflexivity|]. cbn [negb andb].
+  destruct (inrange n s) eqn:Hi; [|reflexivity]. destruct (pairs_le dist thr s) eqn:Hp; [|reflexivity].
+  cbn [andb]. destruct (lenZ s <=? d + 1); [|reflexivity]. f_equal.
+  destruct s as [|x [|y t]]; [discriminate | |].
+  - cbn [fval]. rewrite vval_prox. cbn [inrange forallb] in Hi. fold (inr n x) in Hi. rewrite andb_true_r in Hi. rewrite Hi. reflexivity.
+  - set (r := y :: t) in *. change (fval (prox_graph n dist thr) (x :: r)) with (mval (ew (prox_graph n dist thr) x) (ew (prox_graph n dist thr)) r).
+    cbn [ssortedb] in Hs. apply andb_prop in Hs as [Hs1 Hs2].
+    cbn [inrange forallb] in Hi. fold (inrange n r) (inr n x) in Hi. apply andb_prop in Hi as [Hx Hr].
+    cbn [pairs_le] in Hp. apply andb_prop in Hp as [Hp1 Hp2]. rewrite forallb_forall in Hp1.
+    transitivity (mval (dist x) (ew (prox_graph n dist thr)) r).
+    + apply mval_ext. intros u Hu. unfold ew. rewrite eval_prox by (eapply lbound_in; eauto).
+      rewrite Hx, (inrange_in n r u Hr Hu). specialize (Hp1 u Hu). rewrite Hp1. reflexivity.
+    + apply mval_ext2s; [exact Hs2|]. intros a b Ha Hb Hab. unfold ew. rewrite eval_prox by exact Hab.
+      rewrite (inrange_in n r a Hr Ha), (inrange_in n r b Hr Hb).
+      pose proof (pairs_le_in dist thr r a b Hs2 Hp2 Ha Hb Hab). assert (dist a b <=? thr = true) as -> by lia. reflexivity.
+Qed.
+Theorem rips_is_flag n dist thr d : 2 <= d ->
+  exists st, rips n dist thr d = Some st /\ wf (tree st) /\
+             (forall s, lookup (abs (tree st)) s = rips_spec n dist thr d s) /\ dimn st = height_t (Node (tree st)).
+Proof.
+  intro Hd. pose proof (prox_edges_okb n dist thr) as Hok. destruct (ins_graph_total _ Hok) as [st0 E0].
+  unfold rips. rewrite E0. eexists. split; [reflexivity|].
+  destruct (expansion_flag _ st0 d Hok E0 Hd) as (W & F & D). split; [exact W | split; [|exact D]].
+  intro s. rewrite F. apply rips_spec_flag.
+Qed.
+Theorem rips_low_dim n dist thr d : d <= 1 ->
+  exists st, rips n dist thr d = Some st /\ wf (tree st) /\ (forall s, lookup (abs (tree st)) s = rips_spec n dist thr 1 s).
+Proof.
+  intro Hd. pose proof (prox_edges_okb n dist thr) as Hok. destruct (ins_graph_total _ Hok) as [st0 E0].
+  unfold rips. rewrite E0. destruct (graph_flag1 _ st0 Hok E0) as (W & F & X). rewrite (X d Hd).
+  exists st0. split; [reflexivity | split; [exact W|]]. intro s. rewrite F. apply rips_spec_flag.
+Qed.
